@@ -29,6 +29,7 @@ type Case struct {
 	Solo    bool     // also run every argument alone (C20)
 	Names   []NameRec
 	KF      string // id of the known finding whose shape this input has ("" = none)
+	NoPredict bool // hand-written source: outside the abstract syntax of the models
 
 	Resp *GenResp
 	Obs  *Obs
